@@ -393,6 +393,16 @@ def gen_ops(ctx):
         if not good:
             f[len(f) - 1 - rng.randrange(0, al)] = rng.randrange(1, 256)
         add_raw("raw-alignment", pv, 1, crc, seq0, bytes(f), ([(t, b)], "eof") if good else ([], "err"))
+    # protocol version 0: a frame whose length is not a multiple of 4 is refused even with a correct CRC
+    for rep in range(20 if quick else 150):
+        crc = rng.choice([0, 1])
+        seq0 = rng.choice(seqs)
+        good = (rand_type(rng), rng.randbytes(4 * rng.randrange(0, 6)))
+        t = rand_type(rng)
+        b = rng.randbytes(rng.choice([1, 2, 3, 5, 6, 7, 9, 33]))
+        data = py_frame(seq0, good[0], good[1], crc, False) + py_frame(seq0 + 1, t, b, crc, False)
+        add_raw("raw-pv0-unaligned", 0, 0, crc, seq0, data, ([good], "err"))
+        add_raw("raw-pv0-unaligned", rng.choice([1, 2]), 0, crc, seq0, data, ([good, (t, b)], "eof"))
     # length field edge cases, sequence mismatch, garbage
     for rep in range(60 if quick else 400):
         pv = rng.choice([0, 1, 2])
